@@ -1,6 +1,9 @@
 """Per-property MANIFEST texts (level, trusted base, technique). Only built checks are listed."""
 
-HOOK_COMMITS = ["81c554f verif hook: export the internal async processor under the verif build tag"]
+HOOK_COMMITS = [
+    "81c554f verif hook: export the internal async processor under the verif build tag",
+    "6be3b1e verif hook: export tunnel byte carriers (base64 stream reader, HTTP tunnel conn, WebSocket reader/writer) under the verif build tag",
+]
 
 NOT_APPLICABLE = {}
 
@@ -90,4 +93,14 @@ META["C16"] = dict(
                 "histories - exactly-once, FIFO, bounded refusal, no execution after Close/error, no stuck consumer."),
     level_note=("Trusted: the atomic stamp counter; the bracket argument for refusals (sound, not complete). Hook: the internal processor is reached "
                 "through a type alias compiled only with the verif build tag."),
+)
+
+META["C04"] = dict(
+    design_ref="DESIGN.md section 4, C04",
+    technique="property-based round-trip testing (rapid) of generated message sequences over generated chunkings and three byte carriers; boundary-value generation for the documented limits; native go fuzzing of Conn.Read and the base64 reader in the thorough tier",
+    level_text=("Exploration: generated sequences x chunkers x carriers, compared field by field with the generator's own values; each documented "
+                "limit probed at and beyond the boundary; arbitrary and mutated bytes for totality. The thorough tier adds an exhaustive 2-way "
+                "split sweep of a fixed 6-element sequence per carrier."),
+    level_note=("Trusted: gorilla/websocket and net/http as the WebSocket transport under the library's adapters; the harness' own base64 encoder. "
+                "Hooks: the tunnel carriers are reached through constructors compiled only with the verif build tag."),
 )
